@@ -273,6 +273,19 @@ fn exclusive_system<R: MkResult>(uid: SysUid)
         push(Ev::ChangeSample{ changed, resample: false });
         push(Ev::WorldChangeSample{ changed: world_changed });
         drop(held);
+        // a manual run of another system command applied directly from inside the body: it must see nothing of the
+        // event this run is reacting to (the runner's entry poll flushes the world, which runs this run's parked cleanup)
+        if ctx.script.as_ref().map(|s| s.mid_probe).unwrap_or(false)
+        {
+            if let Some((puid, pent)) = with_case(|c| c.mid_probe)
+            {
+                let facts = take_facts(world);
+                push(Ev::Op{ sender: Sender::Mid(ctx.run), idx: 0, op: Op::RunSys(SysRef::Pool(0)), resolved: Resolved::Sys(puid), facts });
+                SystemCommand(pent).apply(world);
+                let facts = take_facts(world);
+                push(Ev::OpDone{ sender: Sender::Mid(ctx.run), idx: 0, facts });
+            }
+        }
         let err = { let mut c = world.commands(); queue_script(&mut c, uid, &ctx) };
         let (again, changed) = { let mut readers = state.get_mut(world); let ch = readers.changed(); (readers.sample(false, false, &mut Held::default()).0, ch) };
         // fetching the system state a second time moves its change-detection baseline
@@ -1114,6 +1127,13 @@ fn run_inner(program: &Program)
         with_case(|case| case.bind_system_entity(uid, *cmd));
     }
 
+    {
+        // the system command exclusive bodies run directly mid-body (never registered, never named by generated ops)
+        let def = Arc::new(SysDef{ shape: Shape::Full, result: ResKind::Unit, reg_mode: RegMode::Persistent, scripts: Vec::new() });
+        let uid = with_case(|case| case.add_system(def.clone(), None, None, None));
+        let cmd = app.world_mut().spawn_system_command(full_system::<()>(uid));
+        with_case(|case| { case.bind_system_entity(uid, *cmd); case.mid_probe = Some((uid, *cmd)); });
+    }
     if early
     {
         let def = Arc::new(SysDef{ shape: Shape::Minimal, result: ResKind::Unit, reg_mode: RegMode::Persistent, scripts: Vec::new() });
